@@ -139,6 +139,7 @@ type Engine struct {
 	notes    []string
 	conc     bool
 
+	usedLemmas    map[string]bool
 	ordinals      map[string]int
 	pureMode      bool
 	fnByKey       map[string]*ssa.Function
@@ -173,6 +174,9 @@ func (x *Engine) reset(fn string) {
 	x.conc = false
 	x.usedContracts = map[string]bool{}
 	x.ordinals = map[string]int{}
+	if x.usedLemmas == nil {
+		x.usedLemmas = map[string]bool{}
+	}
 	x.panicking = nil
 	x.recovered = nil
 	x.poolEvents = nil
